@@ -176,6 +176,21 @@ CLAIMED.update({
     },
 })
 
+CLAIMED.update({
+    "C03": {
+        "text": "Machine-checked proof that for every constructible tree/DAG (ordinary and exotic cells, sharing) and each "
+                "of the 6 valid option sets, the parser model applied to the bytes of the serialiser model returns exactly "
+                "one root, which is the very same cell (same structure, same hash). The hex/base64 input forms and the "
+                "Cell/Slice/Builder entry points are covered by the differential run only (they are one-line wrappers "
+                "over CPython's bytes.fromhex/base64).",
+        "design_ref": "DESIGN.md 4.3",
+        "technique": "Coq proof: corollary of C04 (emitted bytes are strictly valid) and C05 (parser agrees with the strict "
+                     "decoder), build is a function; correspondence by extracted OCaml model on DAGs up to 70k cells",
+        "note": "2 theorems closed under the global context; modulo hash collisions (explicit hypothesis) and for bags of "
+                "fewer than 2^24 cells.",
+    },
+})
+
 PENDING_REASON = "check not built yet in this round (design in DESIGN.md section 4); not claimed until it exists"
 
 
